@@ -61,6 +61,12 @@ func v6configs(thorough bool) []v6cfg {
 			{"legacy pd-only k2 /64->/66", 2, false, true, false, 4, 0, time.Minute, "base", "2001:db8:200::/64", 66},
 			{"legacy pd-only k2 /60->/64", 2, false, true, false, 3, 0, time.Minute, "base", "2001:db8:200::/60", 64},
 			{"legacy pd-only k2 /64->/72", 2, false, true, false, 2, 0, time.Minute, "base", "2001:db8:200::/64", 72},
+			// delegation lengths that end inside a byte (length mod 8 = 6, 7, 5, 3, 1)
+			{"legacy pd-only k2 /60->/62", 2, false, true, false, 4, 0, time.Minute, "base", "2001:db8:300::/60", 62},
+			{"legacy pd-only k2 /61->/63", 2, false, true, false, 4, 0, time.Minute, "base", "2001:db8:300::/61", 63},
+			{"legacy pd-only k2 /53->/55", 2, false, true, false, 4, 0, time.Minute, "base", "2001:db8:300::/53", 55},
+			{"legacy pd-only k2 /49->/51", 2, false, true, false, 3, 0, time.Minute, "base", "2001:db8:300::/49", 51},
+			{"legacy pd-only k2 /55->/57", 2, false, true, false, 3, 0, time.Minute, "base", "2001:db8:300::/55", 57},
 		}
 	}
 	return []v6cfg{
@@ -73,6 +79,9 @@ func v6configs(thorough bool) []v6cfg {
 		// prefix-pool geometry with the delegation index straddling bit 64 (and one fully beyond it)
 		{"legacy pd-only k2 /63->/65", 2, false, true, false, 3, 0, time.Minute, "base", "2001:db8:200::/63", 65},
 		{"legacy pd-only k2 /64->/66", 2, false, true, false, 2, 0, time.Minute, "base", "2001:db8:200::/64", 66},
+		// delegation lengths that end inside a byte (length mod 8 = 6 and 7)
+		{"legacy pd-only k2 /60->/62", 2, false, true, false, 3, 0, time.Minute, "base", "2001:db8:300::/60", 62},
+		{"legacy pd-only k2 /53->/55", 2, false, true, false, 2, 0, time.Minute, "base", "2001:db8:300::/53", 55},
 	}
 }
 
@@ -306,40 +315,52 @@ func iaPDid(iaid uint32, pfx string) dhcpv6.Option {
 	return dhcpv6.MakeIAPDOption(ia)
 }
 
+// tlvs walks DHCPv6 options (code(2) length(2) data) in b with the harness's own
+// decoder: what a client on the wire sees does not depend on the repository's parsers.
+func tlvs(b []byte, f func(code uint16, data []byte)) {
+	for len(b) >= 4 {
+		code := uint16(b[0])<<8 | uint16(b[1])
+		l := int(b[2])<<8 | int(b[3])
+		if 4+l > len(b) {
+			return
+		}
+		f(code, b[4:4+l])
+		b = b[4+l:]
+	}
+}
+
+func be32(b []byte) uint32 { return uint32(b[0])<<24 | uint32(b[1])<<16 | uint32(b[2])<<8 | uint32(b[3]) }
+
 // values extracts (addresses with valid lifetime, prefixes with valid lifetime) from a response.
+// The IA_NA / IA_PD contents are decoded from the option bytes independently of pkg/dhcpv6
+// (RFC 8415 21.4, 21.6, 21.21, 21.22).
 func values(m *dhcpv6.Message) (addrs, pfxs []bound, status []string) {
 	now := time.Now()
 	for _, o := range m.Options {
 		switch o.Code {
 		case dhcpv6.OptIANA:
-			ia, err := dhcpv6.ParseIANA(o.Data)
-			if err != nil {
+			if len(o.Data) < 12 {
 				continue
 			}
-			for _, io := range ia.Options {
-				if io.Code == dhcpv6.OptIAAddr {
-					if a, err := dhcpv6.ParseIAAddress(io.Data); err == nil {
-						addrs = append(addrs, bound{a.Address.String(), now.Add(time.Duration(a.ValidLifetime) * time.Second)})
-					}
-				} else if io.Code == dhcpv6.OptStatusCode && len(io.Data) >= 2 {
-					status = append(status, fmt.Sprintf("na-status%d", int(io.Data[0])<<8|int(io.Data[1])))
+			tlvs(o.Data[12:], func(code uint16, d []byte) {
+				if code == uint16(dhcpv6.OptIAAddr) && len(d) >= 24 {
+					addrs = append(addrs, bound{net.IP(append([]byte(nil), d[:16]...)).String(), now.Add(time.Duration(be32(d[20:24])) * time.Second)})
+				} else if code == uint16(dhcpv6.OptStatusCode) && len(d) >= 2 {
+					status = append(status, fmt.Sprintf("na-status%d", int(d[0])<<8|int(d[1])))
 				}
-			}
+			})
 		case dhcpv6.OptIAPD:
-			ia, err := dhcpv6.ParseIAPD(o.Data)
-			if err != nil {
+			if len(o.Data) < 12 {
 				continue
 			}
-			for _, io := range ia.Options {
-				if io.Code == dhcpv6.OptIAPrefix {
-					if p, err := dhcpv6.ParseIAPrefix(io.Data); err == nil {
-						n := net.IPNet{IP: p.Prefix, Mask: net.CIDRMask(int(p.PrefixLength), 128)}
-						pfxs = append(pfxs, bound{n.String(), now.Add(time.Duration(p.ValidLifetime) * time.Second)})
-					}
-				} else if io.Code == dhcpv6.OptStatusCode && len(io.Data) >= 2 {
-					status = append(status, fmt.Sprintf("pd-status%d", int(io.Data[0])<<8|int(io.Data[1])))
+			tlvs(o.Data[12:], func(code uint16, d []byte) {
+				if code == uint16(dhcpv6.OptIAPrefix) && len(d) >= 25 {
+					n := net.IPNet{IP: net.IP(append([]byte(nil), d[9:25]...)), Mask: net.CIDRMask(int(d[8]), 128)}
+					pfxs = append(pfxs, bound{n.String(), now.Add(time.Duration(be32(d[4:8])) * time.Second)})
+				} else if code == uint16(dhcpv6.OptStatusCode) && len(d) >= 2 {
+					status = append(status, fmt.Sprintf("pd-status%d", int(d[0])<<8|int(d[1])))
 				}
-			}
+			})
 		case dhcpv6.OptStatusCode:
 			if len(o.Data) >= 2 {
 				status = append(status, fmt.Sprintf("status%d", int(o.Data[0])<<8|int(o.Data[1])))
